@@ -89,7 +89,7 @@ def gen_cases(tier: str, verif_seed: int, runs: int | None = None) -> list[dict]
                 data_seed=prng.below(1 << 30),
                 k=prng.randint(2, 4),
                 n=prng.randint(30, 70),
-                max_examples=30 if tier == "quick" else 60,
+                max_examples=40 if tier == "quick" else 60,
                 geometry=prng.choice(["box", "clumps"]),
                 scale=prng.choice(["deg", "kpc"]),
                 steps=8,
@@ -503,7 +503,7 @@ class Model:
 def draw_op(prng) -> list:
     """One rule application drawn from the harness PRNG (same distributions as the
     Hypothesis machine below)."""
-    rule = prng.choice(["build", "cross", "auto", "hist", "reopen", "ibuild"])
+    rule = prng.choice(["build", "cross", "cross", "auto", "auto", "hist", "reopen", "ibuild"])
     w = prng.choice([1, 1, 1, 2, 3])
     seed = prng.below(1 << 16) if w > 1 else 0
     h = prng.choice([0, 0, 1])
